@@ -28,7 +28,7 @@ type c15Spec struct {
 
 var c15Specs = map[string]c15Spec{
 	"RenameObject":         {writes: []string{"Object.Name", "RefType.ReferredType", "ConstantReferenceType.ReferredType", "DisjunctionType.DiscriminatorMapping", "Schema.EntryPoint"}},
-	"Omit":                 {writes: []string{"Schema.Objects"}},
+	"Omit":                 {writes: []string{"Schema.Objects", "Schema.EntryPoint", "Schema.EntryPointType"}, note: "the entry point is reset only when it designates an omitted object (the store is under the pass's selector): an entry point naming a missing object is not a state the property allows"},
 	"OmitFields":           {writes: []string{"StructType.Fields"}},
 	"AddFields":            {writes: []string{"StructType.Fields"}},
 	"AddObject":            {writes: []string{"Object.Comments", "Schema.Objects"}, note: "creates one object; the comments are those of the new object"},
